@@ -159,8 +159,8 @@ def cases(draw, name, nmax, give_start=None):
         if W.sum() <= 0 or not np.any(W > 0):
             W[0, 1] = abs(W).max() * 4 or 1.0
         kind = "sign"
-    if np.all((W == 0) | (W == 1)) and draw(st.integers(0, 3)) == 0:
-        W = W.astype(np.int64)          # 0/1 matrices are often stored as integers
+    if np.all((W == 0) | (W == 1)) and draw(st.integers(0, 2)) == 0:
+        W = W.astype(draw(st.sampled_from(["uint8", "int64", "int32", "uint16", "int8"])))          # 0/1 matrices are often stored as integers
     case["W"] = W
     case["order"] = draw(st.sampled_from(gen.ORDERS))
     n = len(W)
